@@ -617,8 +617,9 @@ REF_FORMATS = {
                             'op:XOR', 'op:IMPLIES', 'op:EQUIVALENCE', 'op:REQUIRES', 'op:EXCLUDES'],
                     ok=lambda m: len({c['name'] for c in m['ctcs']}) == len(m['ctcs'])),
 }
-CORPUS_DIRS = ['/repo/resources/models/fama_test_suite', '/repo/resources/models/simple',
-               '/repo/resources/models/synthetic/simple_betty_gen_models']
+REPO = os.environ.get('VERIF_REPO', '/repo')
+CORPUS_DIRS = [REPO + '/resources/models/fama_test_suite', REPO + '/resources/models/simple',
+               REPO + '/resources/models/synthetic/simple_betty_gen_models']
 FULL_BOUND = {'quick': 100, 'thorough': 1000}
 
 
